@@ -10,6 +10,7 @@ from vf.gen.tree import expr_string
 from maus.models.anwendungshandbuch import AhbMetaInformation, DeepAnwendungshandbuch
 from maus.models.edifact_components import DataElementFreeText, DataElementValuePool, Segment, SegmentGroup, ValuePoolEntry
 
+from ahbicht.content_evaluation.fc_evaluators import text_to_be_evaluated_by_format_constraint
 from ahbicht.validation.validation import validate_deep_anwendungshandbuch
 
 
@@ -36,13 +37,39 @@ def build(spec: List[Dict]) -> DeepAnwendungshandbuch:
     return DeepAnwendungshandbuch(meta=AhbMetaInformation(pruefidentifikator="11042"), lines=[build_group(g) for g in spec])
 
 
-async def validate(spec: List[Dict], world: E.World, soll: bool, scheduler: Optional[sched.Sched] = None):
-    """("ok", [ValidationResultInContext]) | ("exc", exception)"""
+STALE_TEXT = "stale-text-left-in-the-context-by-an-earlier-step"
+
+
+async def validate(spec: List[Dict], world: E.World, soll: bool, scheduler: Optional[sched.Sched] = None, stale_text: bool = False):
+    """("ok", [ValidationResultInContext]) | ("exc", exception)
+    stale_text: the calling task has evaluated a stand-alone format constraint before (the documentation tells users to set the context
+    variable themselves for that) - what it left there must not reach any data element"""
     ahb = build(spec)
 
     async def go():
         E.set_world(world)
+        if stale_text:
+            text_to_be_evaluated_by_format_constraint.set(STALE_TEXT)
         return await validate_deep_anwendungshandbuch(ahb, soll_is_required=soll)
+
+    return await sched.run_under(scheduler, go)
+
+
+async def validate_sequence(spec: List[Dict], worlds: List[E.World], soll: bool, scheduler: Optional[sched.Sched] = None):
+    """several validations awaited one after the other from the SAME coroutine (one task, one context) - a batch loop.
+    ("ok", [("ok", results) | ("exc", exception), ...])"""
+
+    async def go():
+        outcomes = []
+        for world in worlds:
+            E.set_world(world)
+            try:
+                outcomes.append(("ok", await validate_deep_anwendungshandbuch(build(spec), soll_is_required=soll)))
+            except (KeyboardInterrupt, SystemExit, GeneratorExit):
+                raise
+            except BaseException as exc:  # pylint:disable=broad-except
+                outcomes.append(("exc", exc))
+        return outcomes
 
     return await sched.run_under(scheduler, go)
 
